@@ -112,7 +112,26 @@ def implicit_solves(rep, tier, timeout):
             lu = sm.comp.lu
         obs = [oblig.Ob("dR/dGamma[%d,%d] == mtx" % (i, j), lhs=S(Juu[i, j]), rhs=mtx[i, j], meta={"family": "SolveMatrix.linearize reports dR/dGamma = AIC"}) for i in range(n) for j in range(n)]
         obs += [oblig.Ob("factorised matrix[%d,%d] == mtx" % (i, j), lhs=S(lu.a[i, j]), rhs=mtx[i, j], meta={"family": "SolveMatrix factorises the matrix it reports"}) for i in range(n) for j in range(n)]
-        run_obligations(rep, "SolveMatrix linearize [n=%d]" % n, obs, timeout, family=lambda ob: "SolveMatrix: " + ob.meta["family"])
+        def smlin_rp(ob, env, ss=ss):
+            import openmdao.api as om
+            from openaerostruct.aerodynamics.solve_matrix import SolveMatrix
+
+            prob = om.Problem(reports=False)
+            prob.model.add_subsystem("sm", SolveMatrix(surfaces=ss), promotes=["*"])
+            prob.setup()
+            n_ = prob.model.sm.system_size
+            rng = np.random.default_rng(12)
+            M_ = rng.standard_normal((n_, n_)) + n_ * np.eye(n_)
+            prob.set_val("mtx", M_)
+            prob.set_val("rhs", rng.standard_normal(n_))
+            prob.run_model()
+            J = prob.check_partials(out_stream=None, compact_print=True, method="fd", step=1e-6)["sm"]
+            key = [k for k in J if k[0].endswith("circulations") and k[1].endswith("circulations")][0]
+            e1 = float(np.abs(np.asarray(J[key]["J_fwd"]) - M_).max())
+            e2 = float(np.abs(M_.dot(np.array(prob.get_val("circulations"))) - np.array(prob.get_val("rhs"))).max())
+            return max(e1, e2) > 1e-9, "real SolveMatrix: |dR/dGamma reported - mtx| = %.3g, |mtx Gamma - rhs| = %.3g" % (e1, e2)
+
+        run_obligations(rep, "SolveMatrix linearize [n=%d]" % n, obs, timeout, family=lambda ob: "SolveMatrix: " + ob.meta["family"], replay=smlin_rp)
         for mode in ("fwd", "rev"):
             npproxy.LU_LOG.clear()
             with symbolic_numpy():
@@ -207,6 +226,34 @@ def replay_fem_residual(s, ch):
     return bad, "real FEM: |R - (K u - f)| = %.3g, |K u_solved - f| / |f| = %.3g, |dR/du reported - K| / |K| = %.3g" % (e1, e2, e3)
 
 
+def replay_jacvec(mod, cls, ss):
+    """the real matrix-free component on floats: forward product against central differences of compute, and adjointness"""
+    sc = SymComp(mod, cls, surfaces=ss)
+    comp = sc.comp
+    rng = np.random.default_rng(21)
+    x0 = {n: rng.standard_normal(sc.shape(n)) for n in sc.in_names}
+    dx = {n: rng.standard_normal(sc.shape(n)) for n in sc.in_names}
+    y = {n: rng.standard_normal(sc.shape(n)) for n in sc.out_names}
+
+    def f(v):
+        o = {n: np.zeros(sc.shape(n)) for n in sc.out_names}
+        comp.compute(v, o)
+        return o
+
+    h = 1e-6
+    fp, fm = f({n: x0[n] + h * dx[n] for n in x0}), f({n: x0[n] - h * dx[n] for n in x0})
+    fd = {n: (fp[n] - fm[n]) / (2 * h) for n in sc.out_names}
+    d_out = {n: np.zeros(sc.shape(n)) for n in sc.out_names}
+    comp.compute_jacvec_product(x0, {n: dx[n].copy() for n in dx}, d_out, "fwd")
+    e1 = max(float(np.abs(d_out[n] - fd[n]).max()) for n in sc.out_names)
+    d_in = {n: np.zeros(sc.shape(n)) for n in sc.in_names}
+    comp.compute_jacvec_product(x0, d_in, {n: y[n].copy() for n in y}, "rev")
+    lhs = sum(float(np.sum(y[n] * d_out[n])) for n in sc.out_names)
+    rhs = sum(float(np.sum(d_in[n] * dx[n])) for n in sc.in_names)
+    e2 = abs(lhs - rhs) / max(1.0, abs(lhs))
+    return e1 > 1e-6 or e2 > 1e-10, "real %s: forward product vs central difference %.3g, <y, J x> - <J^T y, x> = %.3g (relative)" % (cls, e1, e2)
+
+
 def replay_sm_solve(ss, mode):
     import openmdao.api as om
     from openaerostruct.aerodynamics.solve_matrix import SolveMatrix
@@ -296,7 +343,10 @@ def matrix_free(rep, tier, timeout):
         lhs = sum((y[n].ravel()[i] * (S(d_out[n].ravel()[i]) - pre_o[n].ravel()[i]) for n in sc.out_names for i in range(y[n].size)), ZERO)
         rhs = sum((JTy[n].ravel()[i] * x[n].ravel()[i] for n in sc.in_names for i in range(x[n].size)), ZERO)
         obs.append(oblig.Ob("adjoint <y, Jx> == <J^T y, x>", lhs=lhs, rhs=rhs, meta={"family": "forward and reverse matrix-free products are adjoint"}))
-        run_obligations(rep, "%s jacvec products" % cls, obs, timeout, family=lambda ob, cls=cls: "%s: %s" % (cls, ob.meta["family"]))
+        def jv_rp(ob, env, mod=mod, cls=cls, ss=ss):
+            return replay_jacvec(mod, cls, ss)
+
+        run_obligations(rep, "%s jacvec products" % cls, obs, timeout, family=lambda ob, cls=cls: "%s: %s" % (cls, ob.meta["family"]), replay=jv_rp)
     # mux(demux) index maps are a partition and inverse permutations
     from openaerostruct.mphys.utils import get_src_indices
 
@@ -311,7 +361,21 @@ def matrix_free(rep, tier, timeout):
     parts = dm.sym1({dm.in_names[0]: xin})
     back = mx.sym1({s["name"] + "_mesh_point_forces": parts[s["name"] + "_def_mesh"] for s in ss})
     obs += idents("mux(demux(x))", back[mx.out_names[0]], xin, meta={"family": "mux after demux is the identity (inverse permutations)"})
-    run_obligations(rep, "mux/demux index maps", obs, timeout, family=lambda ob: "MPhys: " + ob.meta["family"], cut_threshold=0)
+    def idx_rp(ob, env, ss=ss):
+        import openmdao.api as om
+        from openaerostruct.mphys.demux_surface_mesh import DemuxSurfaceMesh
+        from openaerostruct.mphys.mux_surface_forces import MuxSurfaceForces
+
+        nn = sum(x["mesh"].size for x in ss)
+        xv = np.arange(nn, dtype=float) + 0.5
+        d_ = SymComp("mphys.demux_surface_mesh", "DemuxSurfaceMesh", surfaces=ss)
+        parts_ = d_.real({d_.in_names[0]: xv})
+        m_ = SymComp("mphys.mux_surface_forces", "MuxSurfaceForces", surfaces=ss)
+        back_ = m_.real({x["name"] + "_mesh_point_forces": parts_[x["name"] + "_def_mesh"] for x in ss})[m_.out_names[0]]
+        e = float(np.abs(np.asarray(back_).ravel() - xv).max())
+        return e > 0, "real mux(demux(x)) differs from x by %.3g" % e
+
+    run_obligations(rep, "mux/demux index maps", obs, timeout, family=lambda ob: "MPhys: " + ob.meta["family"], cut_threshold=0, replay=idx_rp)
 
 
 def run(tier, seed, only=None):
